@@ -3,7 +3,7 @@ from .. import core, ref, vals, pts
 from ..core import hx, lst
 from ..ref import P, L, to32, le
 
-REQUIRED = ['heap:msm', 'heap:rs-msm', 'heap:batchinv', 'heap:control-vartime', 'drop:signingkey', 'drop:expandedsecretkey',
+REQUIRED = ['heap:msm', 'heap:rs-msm', 'heap:batchinv', 'heap:batchinv-zero', 'heap:unwind-points', 'heap:unwind-scalars', 'heap:control-vartime', 'drop:signingkey', 'drop:expandedsecretkey',
             'drop:ephemeral', 'drop:reusable', 'drop:static', 'drop:shared', 'drop:boxed', 'zeroize']
 
 
@@ -70,6 +70,15 @@ def heap(ctx, sizes, stats):
             ctx.block()
             for i, sv in enumerate(secs):
                 ctx.add('mem.msm', '#%d' % kind, lst([cs(s) for s in sv]), pt, expect=g.judge(i == 0), cls=[cl, 'n=%d' % n], info='repr')
+            # the caller's point / scalar iterator fails part-way and the unwinding is caught: what was already
+            # recoded must still be wiped
+            for which, wcl in ((0, 'heap:unwind-points'), (1, 'heap:unwind-scalars')):
+                for at in sorted(set([0, n // 2, n - 1])):
+                    g = Group(stats=stats)
+                    ctx.block()
+                    for i, sv in enumerate(secs):
+                        ctx.add('mem.msmpanic', '#%d' % kind, lst([cs(s) for s in sv]), pt, '#%d' % which, '#%d' % at,
+                                expect=g.judge(i == 0), cls=[wcl, 'n=%d' % n], info='repr')
         if n >= 2:
             g = Group(want_equal=False, stats={})
             ctx.block()
@@ -82,6 +91,15 @@ def heap(ctx, sizes, stats):
         secs = [[1] * n, [L - 1] * n, [2] * n] + [[rng.randrange(1, L) for _ in range(n)] for _ in range(3)]
         for i, sv in enumerate(secs):
             ctx.add('mem.batchinv', lst([cs(s) for s in sv]), expect=g.judge(i == 0), cls=['heap:batchinv', 'n=%d' % n], info='repr')
+        if n >= 2:
+            # a zero among the inputs (release builds return all zeros): same positions for every secret vector
+            for zpos in sorted(set([1, n - 1, n // 2])):
+                g = Group(stats=stats)
+                ctx.block()
+                for i, sv in enumerate(secs):
+                    sv = list(sv)
+                    sv[zpos] = 0
+                    ctx.add('mem.batchinv', lst([cs(s) for s in sv]), expect=g.judge(i == 0), cls=['heap:batchinv-zero', 'n=%d' % n], info='repr')
     ctx.block()
 
 
@@ -184,7 +202,7 @@ def run(prop, tier, seed, t0):
                        rule='(heap) constant-time multiscalar multiplication (Edwards, Ristretto) and Scalar::batch_invert run inside a '
                             'measured region of the instrumenting allocator for one public input and six secret-scalar vectors (all-zero '
                             'digits, all-max digits, digits 7/8, random): the (size, offset, content) log of freed blocks must be '
-                            'identical across secrets, for each forced backend copy; a vartime call is the positive control; (drop) each '
+                            'identical across secrets, for each forced backend copy; the same with the point or scalar iterator panicking at the first, middle and last element (unwinding caught inside the region) and with a zero among the inversion inputs; a vartime call is the positive control; (drop) each '
                             'secret-holding type is built in ManuallyDrop / Box storage, used, dropped in place and its storage searched '
                             'for 8-byte windows of the secret and its derived forms; (zeroize) explicit zeroisation results; '
                             'distinct = distinct (op,args)',
